@@ -4,12 +4,14 @@ package fw
 
 import (
 	"bytes"
+	"container/list"
 	"time"
 
 	"github.com/named-data/ndnd/fw/defn"
 	"github.com/named-data/ndnd/fw/dispatch"
 	"github.com/named-data/ndnd/fw/table"
 	enc "github.com/named-data/ndnd/std/encoding"
+	spec "github.com/named-data/ndnd/std/ndn/spec_2022"
 )
 
 // Contracts for the gcv verifier (/verif); compiled only with build tag `verif`.
@@ -50,14 +52,35 @@ var verifLastToken []byte        // PIT token attached to the last packet sent
 var verifSentSet map[uint64]bool // set of faces a packet has been handed to
 var verifCsInserts int           // number of Data packets handed to the Content Store so far
 
+// Hop limit (C02 "forwarded with its hop limit reduced by one").
+// specArrivalHop(pkt): the hop limit the packet carried when it was handed to the incoming pipeline, -1 when it carried
+// none. An uninterpreted symbol: it is bound once, by the `assume` at the entry of processIncomingInterest (a definition of
+// the symbol, not a hypothesis about the code), and never again.
+func specArrivalHop(pkt *defn.Pkt) int { panic("ghost") }
+
+// specHopOf: the hop limit the Interest carries now (-1: none).
+func specHopOf(pkt *defn.Pkt) int {
+	if pkt.L3.Interest.HopLimitV == nil {
+		return -1
+	}
+	return int(*pkt.L3.Interest.HopLimitV)
+}
+
+// specHopDecremented: the Interest carries exactly its arrival hop limit minus one; an Interest that arrived without
+// hop limit still has none. (An Interest that arrived with hop limit 0 can never satisfy this: -1 is "none".)
+func specHopDecremented(pkt *defn.Pkt) bool {
+	return (pkt.L3.Interest.HopLimitV == nil && specArrivalHop(pkt) == -1) ||
+		(pkt.L3.Interest.HopLimitV != nil && int(*pkt.L3.Interest.HopLimitV) == specArrivalHop(pkt)-1)
+}
+
 // Every transmission goes through dispatch.Face.SendPacket. Its precondition is the scope rule, so every call site
 // in the forwarder, present or added later, carries the obligation "not (non-local face and /localhost name)".
 //
 //@ func (github.com/named-data/ndnd/fw/dispatch.Face).SendPacket
 //@   ensures [clock-kept] ghostFwClock == old(ghostFwClock)
-//@   ensures [pit-schedule-kept] ghostPitUnsched == old(ghostPitUnsched) && ghostPitDueNow == old(ghostPitDueNow) && ghostPitAnswered == old(ghostPitAnswered) && ghostPitLastRecorded == old(ghostPitLastRecorded) && ghostPitRecordings == old(ghostPitRecordings)
 //@   requires out.Pkt != nil && out.Pkt.L3 != nil && (out.Pkt.L3.Interest == nil) != (out.Pkt.L3.Data == nil)
 //@   requires !(self.Scope() == defn.NonLocal && specIsLocalhost(specPktName(out.Pkt)))
+//@   requires [hop-limit-dec] out.Pkt.L3.Interest != nil ==> specHopDecremented(out.Pkt)
 //@   modifies verifSends, verifLastFace, verifLastToken, verifSentSet[*]
 //@   ensures verifSends == old(verifSends)+1 && verifLastFace == self.FaceID() && sameSlice(verifLastToken, out.PitToken)
 //@   ensures mapHas(verifSentSet, self.FaceID()) && forall(func(k uint64) bool { return k != self.FaceID() ==> mapHas(verifSentSet, k) == old(mapHas(verifSentSet, k)) })
@@ -83,7 +106,6 @@ func specIsNexthop(nexthops []*table.FibNextHopEntry, n int, k uint64) bool {
 // strategies rely on; the scope rule itself is the precondition of SendPacket (discharged at the call sites inside).
 //
 //@ func (*Thread).processOutgoingData
-//@   ensures [pit-schedule-kept] ghostPitUnsched == old(ghostPitUnsched) && ghostPitDueNow == old(ghostPitDueNow) && ghostPitAnswered == old(ghostPitAnswered) && ghostPitLastRecorded == old(ghostPitLastRecorded) && ghostPitRecordings == old(ghostPitRecordings)
 //@   requires packet != nil && packet.L3 != nil && packet.L3.Data != nil && packet.L3.Interest == nil
 //@   modifies t.NOutData, t.NSatisfiedInterests, verifSends, verifLastFace, verifLastToken, verifSentSet[*]
 //@   ensures [at-most-one] (verifSends == old(verifSends) && verifLastFace == old(verifLastFace)) || (verifSends == old(verifSends)+1 && verifLastFace == nexthop && sameSlice(verifLastToken, pitToken))
@@ -92,6 +114,7 @@ func specIsNexthop(nexthops []*table.FibNextHopEntry, n int, k uint64) bool {
 //@ func (*Thread).processOutgoingInterest
 //@   ensures [clock-kept] ghostFwClock == old(ghostFwClock)
 //@   requires packet != nil && packet.L3 != nil && packet.L3.Interest != nil && packet.L3.Data == nil && pitEntry != nil
+//@   requires [hop-limit-dec] specHopDecremented(packet)
 //@   modifies t.NOutInterests, all(table.PitOutRecord), all(table.basePitEntry), verifSends, verifLastFace, verifLastToken, verifSentSet[*]
 //@   ensures result ==> !(dispatch.GetFace(nexthop).Scope() == defn.NonLocal && specIsLocalhost(packet.L3.Interest.NameV))
 //@   ensures [usable-iff] result == old(specUsable(packet, nexthop, inFace))
@@ -103,6 +126,7 @@ func specIsNexthop(nexthops []*table.FibNextHopEntry, n int, k uint64) bool {
 //@   ensures [token-format] result ==> len(verifLastToken) == 6 && enc.SpecBE16(verifLastToken, 0) == uint64(uint16(t.threadID))
 
 var _ = dispatch.GetFace
+var _ list.List
 var _ table.PitEntry
 
 // Clock (A-CLOCK), as in fw/table: time.Now() returns the next reading of an arbitrary clock; ghostFwClock counts the
@@ -133,78 +157,31 @@ func specFwClockAt(i int) time.Time { return specFwClockAt(i) }
 // The Content Store as the pipelines see it: every insertion is counted in ghost state, so that "a /localhost Data from
 // a non-local face is not cached" is a postcondition of the incoming Data pipeline.
 //
+// The other clauses are, word for word, the interface contract of InsertData in fw/table/zz_verif_pitcs_iface.go, which
+// *PitCsTree is checked to refine (the ghost counter is an event counter defined by this contract: no code writes it).
+//
 //@ func (github.com/named-data/ndnd/fw/table.PitCsTable).InsertData
-//@   modifies verifCsInserts, all(table.nameTreePitEntry), all(table.pitCsTreeNode), all(table.PitCsTree), all(table.baseCsEntry)
+//@   requires data != nil && table.specPitCsWf(self) && table.specCsKeysWf(self)
+//@   modifies verifCsInserts, all(table.pitCsTreeNode), all(table.PitCsTree), all(table.baseCsEntry), all(table.nameTreeCsEntry), all(time.Time), all(table.ghostPitcsChildMap), all(table.ghostPitcsCsMap), all(table.ghostPitcsLocMap), all(list.List.len), all(list.Element.list)
+//@   ensures [wf-kept] table.specPitCsWf(self) && table.specCsKeysWf(self)
+//@   ensures [recs-kept] old(table.specPitRecsWf(self)) ==> table.specPitRecsWf(self)
 //@   ensures verifCsInserts == old(verifCsInserts)+1
 
-// ---------------------------------------------------------------------------------------
-// C08, pipeline side: every PIT entry that a pipeline call leaves behind has its removal scheduled.
-//
-// The PIT reaper (PitCsTree.Update, fw/table) removes exactly the entries that sit in the expiry queue; an entry gets
-// there (or has its queue position refreshed) only through table.UpdateExpirationTimer (latest deadline among the
-// recorded Interests) or table.SetExpirationTimerToNow (immediate removal). An entry that a pipeline call creates, or
-// records a further Interest in, and then leaves without one of these calls stays in the PIT for ever. The ghost state
-// below is the pipelines' view of this (environment model of fw/table, assumed; the table side is verified in fw/table).
-// Three sets of PIT entries, each represented by a ghost version number v and the uninterpreted membership predicate
-// specPitIn(v, e) (a call that changes a set gets a new version whose members its contract relates to the old one):
-//
-//   ghostPitUnsched      entries that were created / had an Interest recorded in them and whose removal has NOT been
-//                        (re)scheduled since;
-//   ghostPitDueNow       entries whose removal is scheduled for "now" (a clock reading taken by the scheduling call) and
-//                        has not been moved to a later time since;
-//   ghostPitAnswered     entries that have been marked satisfied;
-//   ghostPitLastRecorded the entry in which the last in-record was inserted; ghostPitRecordings counts the insertions.
-// ---------------------------------------------------------------------------------------
-
-var ghostPitUnsched int
-var ghostPitDueNow int
-var ghostPitAnswered int
-var ghostPitLastRecorded table.PitEntry
-var ghostPitRecordings int
-
-func specPitIn(version int, e table.PitEntry) bool { panic("ghost") }
-
-// InsertInterest (environment model; the first clause repeats the interface contract of fw/table): the entry returned
-// when the Interest is not a duplicate may be new, i.e. not in the expiry queue: its removal is still to be scheduled.
-//
-//@ func (github.com/named-data/ndnd/fw/table.PitCsTable).InsertInterest
-//@   modifies all(table.basePitEntry), all(table.nameTreePitEntry), all(table.pitCsTreeNode), all(table.PitCsTree), ghostPitUnsched
-//@   ensures result0 != nil && typeIs(result0, "*table.nameTreePitEntry") && result0.(*table.nameTreePitEntry).inRecords != nil
-//@   ensures [new-entry-unscheduled] specPitIn(ghostPitUnsched, result0) == (!result1 || specPitIn(old(ghostPitUnsched), result0))
-//@   ensures [others-kept] forall(func(e table.PitEntry) bool { return e != result0 ==> specPitIn(ghostPitUnsched, e) == specPitIn(old(ghostPitUnsched), e) })
-
-// InsertInRecord (environment model): recording an Interest gives the entry a new latest deadline; the removal scheduled
-// before (if any) no longer accounts for it.
-//
-//@ func (github.com/named-data/ndnd/fw/table.PitEntry).InsertInRecord
-//@   modifies ghostPitUnsched, ghostPitLastRecorded, ghostPitRecordings
-//@   ensures [deadline-changed] specPitIn(ghostPitUnsched, self) && ghostPitLastRecorded == self && ghostPitRecordings == old(ghostPitRecordings)+1
-//@   ensures [others-kept] forall(func(e table.PitEntry) bool { return e != self ==> specPitIn(ghostPitUnsched, e) == specPitIn(old(ghostPitUnsched), e) })
-
-// SetSatisfied (environment model): the entry is marked satisfied.
-//
-//@ func (github.com/named-data/ndnd/fw/table.PitEntry).SetSatisfied
-//@   modifies ghostPitAnswered
-//@   ensures [marked] specPitIn(ghostPitAnswered, self) == (isSatisfied || specPitIn(old(ghostPitAnswered), self))
-//@   ensures [others-kept] forall(func(e table.PitEntry) bool { return e != self ==> specPitIn(ghostPitAnswered, e) == specPitIn(old(ghostPitAnswered), e) })
-
-// UpdateExpirationTimer (environment model; concrete contract in fw/table): the entry is queued for removal at the latest
-// deadline among its records (not earlier than now). It is no longer unscheduled, and no longer due now.
+// Expiry scheduling as the pipelines see it (environment model; the concrete contracts over the real expiry queue are in
+// fw/table/zz_verif_expiry.go and are verified there under C08; their preconditions - tree dynamic types, 'a set queue item is
+// in the queue' - are not proved at the pipeline call sites). The calls write the entry's expiration time, its queue item and
+// the expiry queue, none of which the representation predicates of the PIT-CS and of the FIB read ([tables-kept], assumed).
 //
 //@ func github.com/named-data/ndnd/fw/table.UpdateExpirationTimer
 //@   requires e != nil
-//@   modifies ghostPitUnsched, ghostPitDueNow, all(table.basePitEntry.expirationTime), all(table.nameTreePitEntry.pqItem), all(table.PitCsTree)
-//@   ensures [scheduled] !specPitIn(ghostPitUnsched, e) && !specPitIn(ghostPitDueNow, e)
-//@   ensures [others-kept] forall(func(k table.PitEntry) bool { return k != e ==> specPitIn(ghostPitUnsched, k) == specPitIn(old(ghostPitUnsched), k) && specPitIn(ghostPitDueNow, k) == specPitIn(old(ghostPitDueNow), k) })
+//@   modifies all(table.basePitEntry.expirationTime), all(table.nameTreePitEntry.pqItem)
+//@   ensures [tables-kept] forall(func(x table.PitCsTable) bool { return (old(table.specPitCsWf(x)) ==> table.specPitCsWf(x)) && (old(table.specPitRecsWf(x)) ==> table.specPitRecsWf(x)) && (old(table.specCsKeysWf(x)) ==> table.specCsKeysWf(x)) }) && forall(func(y table.FibStrategy) bool { return old(table.specFibWf(y)) ==> table.specFibWf(y) })
 
-// SetExpirationTimerToNow (environment model; concrete contract in fw/table): the entry is queued for removal at the clock
-// reading taken by the call.
-//
 //@ func github.com/named-data/ndnd/fw/table.SetExpirationTimerToNow
 //@   requires e != nil
-//@   modifies ghostPitUnsched, ghostPitDueNow, all(table.basePitEntry.expirationTime), all(table.nameTreePitEntry.pqItem), all(table.PitCsTree)
-//@   ensures [scheduled-now] !specPitIn(ghostPitUnsched, e) && specPitIn(ghostPitDueNow, e)
-//@   ensures [others-kept] forall(func(k table.PitEntry) bool { return k != e ==> specPitIn(ghostPitUnsched, k) == specPitIn(old(ghostPitUnsched), k) && specPitIn(ghostPitDueNow, k) == specPitIn(old(ghostPitDueNow), k) })
+//@   modifies all(table.basePitEntry.expirationTime), all(table.nameTreePitEntry.pqItem)
+//@   ensures [tables-kept] forall(func(x table.PitCsTable) bool { return (old(table.specPitCsWf(x)) ==> table.specPitCsWf(x)) && (old(table.specPitRecsWf(x)) ==> table.specPitRecsWf(x)) && (old(table.specCsKeysWf(x)) ==> table.specCsKeysWf(x)) }) && forall(func(y table.FibStrategy) bool { return old(table.specFibWf(y)) ==> table.specFibWf(y) })
+
 
 // Incoming pipelines. "Never accepted from a non-local face": a /localhost packet from a non-local face is dropped
 // before it is counted, looked up, inserted anywhere or forwarded (NInInterests / the PIT-CS are untouched: the
@@ -213,35 +190,40 @@ func specPitIn(version int, e table.PitEntry) bool { panic("ghost") }
 //@ func (*Thread).processIncomingInterest
 //@   requires packet != nil && packet.L3 != nil && packet.L3.Interest != nil && packet.L3.Data == nil
 //@   assume t.pitCS != nil && t.deadNonceList != nil && t.deadNonceList.list != nil && t.strategies != nil && table.FibStrategyTable != nil && table.NetworkRegion != nil
-//@   assume forall(func(k uint64) bool { return t.strategies[k] != nil })
-//@   modifies verifSends, verifLastFace, verifLastToken, verifSentSet[*], all(table.nameTreePitEntry), all(table.pitCsTreeNode), all(table.PitCsTree), t.deadNonceList.expirationQueue.pq, all(table.ghostDnlItems), t.NInInterests, *packet.L3.Interest.HopLimitV, packet.L3.Data, packet.L3.Interest, packet.Raw, packet.Name, all(table.DeadNonceList), t.deadNonceList.list[*], all(table.basePitEntry)
-//@   loop 2 invariant fresh(allowedNexthops) && len(allowedNexthops) <= rangeindex+1 && cap(allowedNexthops) == len(nexthops) && forallIn(0, len(nexthops), func(i int) bool { return nexthops[i] != nil })
+//@   assume forall(func(k uint64) bool { return t.strategies[k] != nil && specStrategyReady(t.strategies[k]) })
+//@   assume [arrival-hop-defined] specArrivalHop(packet) == specHopOf(packet)
+//@   opaque table.specPitCsWf table.specPitRecsWf table.specCsKeysWf table.SpecInProducerRegion table.specFibWf
+//@   invariant [pitcs-wf] table.specPitCsWf(t.pitCS)
+//@   assume [fib-wf] table.specFibWf(table.FibStrategyTable)
+//@   assume [pit-records-wf] table.specPitRecsWf(t.pitCS)
+//@   modifies verifFibLookups, verifFibName, verifFibResult, verifSends, verifLastFace, verifLastToken, verifSentSet[*], all(table.nameTreePitEntry), all(table.pitCsTreeNode), all(table.PitCsTree), t.deadNonceList.expirationQueue.pq, all(table.ghostDnlItems), t.NInInterests, *packet.L3.Interest.HopLimitV, packet.L3.Data, packet.L3.Interest, packet.Raw, packet.Name, all(table.DeadNonceList), t.deadNonceList.list[*], all(table.basePitEntry), all(Thread.NOutInterests), all(table.PitOutRecord), all(Thread.NOutData), all(Thread.NSatisfiedInterests), all(table.ghostPitcsEntrySlice), all(table.ghostPitcsChildMap), all(table.ghostPitcsTokenMap), all(time.Time), all(table.ghostPitcsLocMap), all(list.List.len), all(list.Element.list), all(table.ghostPitInRecMap)
+//@   loop 2 invariant fresh(allowedNexthops) && len(allowedNexthops) <= rangeindex+1 && cap(allowedNexthops) == len(nexthops)
+//@   loop 2 invariant [hops-non-nil] forallIn(0, len(nexthops), func(i int) bool { return nexthops[i] != nil })
+//@   loop 2 invariant forallIn(0, len(allowedNexthops), func(i int) bool { return allowedNexthops[i] != nil })
 //@   ensures [reject-nonlocal-localhost] old(packet.IncomingFaceID != nil && dispatch.GetFace(*packet.IncomingFaceID) != nil && dispatch.GetFace(*packet.IncomingFaceID).Scope() == defn.NonLocal && specIsLocalhost(packet.L3.Interest.NameV)) ==> t.NInInterests == old(t.NInInterests)
 //@   ensures [hop-limit-zero] old(packet.L3.Interest.HopLimitV != nil && *packet.L3.Interest.HopLimitV == 0) ==> verifSends == old(verifSends) && t.NInInterests == old(t.NInInterests)
+//@   ensures [no-nonce-dropped] old(packet.L3.Interest.NonceV) == nil ==> verifSends == old(verifSends) && forall(func(k uint64) bool { return mapHas(verifSentSet, k) == old(mapHas(verifSentSet, k)) })
+//@   ensures [dead-nonce-dropped] old(packet.L3.Interest.NonceV != nil && mapHas(t.deadNonceList.list, table.specDnlKey(packet.L3.Interest.NameV, *packet.L3.Interest.NonceV))) ==> verifSends == old(verifSends) && forall(func(k uint64) bool { return mapHas(verifSentSet, k) == old(mapHas(verifSentSet, k)) })
+//@   ensures [one-fib-lookup] verifFibLookups == old(verifFibLookups) || verifFibLookups == old(verifFibLookups)+1
+//@   ensures [lookup-name] verifFibLookups != old(verifFibLookups) && specReachedRegion(old(packet.L3.Interest)) ==> sameSlice(verifFibName, old(packet.L3.Interest).NameV)
+//@   ensures [lookup-hint] verifFibLookups != old(verifFibLookups) && !specReachedRegion(old(packet.L3.Interest)) && old(packet.L3.Interest).ForwardingHintV.Names[0] != nil ==> sameSlice(verifFibName, old(packet.L3.Interest).ForwardingHintV.Names[0])
+//@   loop 1 invariant [hint-scan-b] hint == interest.ForwardingHintV && hint != nil
+//@   loop 1 invariant [hint-scan] forallIn(0, len(hint.Names), func(j int) bool { return j <= rangeindex ==> !table.SpecInProducerRegion(hint.Names[j]) })
+//@   loop 1 invariant [first-delegation] (rangeindex == -1 ==> fhName == nil) && (rangeindex >= 0 && hint.Names[0] != nil ==> sameSlice(fhName, hint.Names[0]))
 //@   ensures [hop-limit-dec] verifSends != old(verifSends) && old(packet.L3.Interest.HopLimitV) != nil ==> *old(packet.L3.Interest.HopLimitV) == old(*packet.L3.Interest.HopLimitV)-1
-//@   ensures [expiry-scheduled] forall(func(e table.PitEntry) bool { return specPitIn(ghostPitUnsched, e) ==> specPitIn(old(ghostPitUnsched), e) })
-//@   ensures [recorded-entry-scheduled] ghostPitRecordings != old(ghostPitRecordings) ==> !specPitIn(ghostPitUnsched, ghostPitLastRecorded)
-// (An entry answered from the cache is NOT required to be due at once: other faces may still have unsatisfied Interests
-// recorded in it; after the cached Data has gone to the asking face the removal is scheduled by UpdateExpirationTimer for
-// when the remaining records expire, at once if there are none. [expiry-scheduled] is the clause that carries C08 here.)
 
 //@ func (*Thread).processIncomingData
 //@   requires packet != nil && packet.L3 != nil && packet.L3.Data != nil && packet.L3.Interest == nil && sameSlice(packet.Name, packet.L3.Data.NameV)
 //@   assume t.pitCS != nil && t.deadNonceList != nil && t.deadNonceList.list != nil && t.strategies != nil && table.FibStrategyTable != nil
-//@   assume forall(func(k uint64) bool { return t.strategies[k] != nil })
-//@   modifies verifSends, verifLastFace, verifLastToken, verifSentSet[*], all(table.nameTreePitEntry), all(table.pitCsTreeNode), all(table.PitCsTree), all(table.basePitEntry), all(table.baseCsEntry), all(table.PitOutRecord), all(table.PitInRecord), t.deadNonceList.expirationQueue.pq, all(table.ghostDnlItems), t.deadNonceList.list[*], t.NInData, t.NOutData, t.NSatisfiedInterests, verifCsInserts
+//@   assume forall(func(k uint64) bool { return t.strategies[k] != nil && specStrategyReady(t.strategies[k]) })
+//@   opaque table.specPitCsWf table.specPitRecsWf table.specCsKeysWf table.specFibWf
+//@   invariant [pitcs-wf] table.specPitCsWf(t.pitCS)
+//@   invariant [fib-wf] table.specFibWf(table.FibStrategyTable)
+//@   assume [pit-records-wf] table.specPitRecsWf(t.pitCS)
+//@   assume [cs-keys-wf] table.specCsKeysWf(t.pitCS)
+//@   modifies verifSends, verifLastFace, verifLastToken, verifSentSet[*], all(table.nameTreePitEntry), all(table.pitCsTreeNode), all(table.PitCsTree), all(table.basePitEntry), all(table.baseCsEntry), all(table.PitOutRecord), all(table.PitInRecord), t.deadNonceList.expirationQueue.pq, all(table.ghostDnlItems), t.deadNonceList.list[*], t.NInData, t.NOutData, t.NSatisfiedInterests, verifCsInserts, all(Thread.NOutData), all(Thread.NSatisfiedInterests), all(table.nameTreeCsEntry), all(time.Time), all(table.ghostPitcsChildMap), all(table.ghostPitcsCsMap), all(table.ghostPitcsLocMap), all(list.List.len), all(list.Element.list), all(table.ghostPitInRecMap)
 //@   ensures [reject-nonlocal-localhost] old(packet.IncomingFaceID != nil && dispatch.GetFace(*packet.IncomingFaceID) != nil && dispatch.GetFace(*packet.IncomingFaceID).Scope() == defn.NonLocal && len(packet.Name) > 0 && specIsLocalhost(packet.L3.Data.NameV)) ==> t.NOutData == old(t.NOutData) && t.deadNonceList.list == old(t.deadNonceList.list) && verifCsInserts == old(verifCsInserts) && verifSends == old(verifSends)
 //@   loop 3 invariant [downstreams-are-pending] forall(func(k uint64) bool { return mapHas(downstreams, k) ==> visited(k) })
-//@   ensures [satisfied-reaped-promptly] forall(func(e table.PitEntry) bool { return specPitIn(ghostPitAnswered, e) && !specPitIn(old(ghostPitAnswered), e) ==> specPitIn(ghostPitDueNow, e) })
-//@   ensures [expiry-scheduled] forall(func(e table.PitEntry) bool { return specPitIn(ghostPitUnsched, e) ==> specPitIn(old(ghostPitUnsched), e) })
-//@   loop 2 invariant [satisfied-reaped-promptly] forall(func(e table.PitEntry) bool { return specPitIn(ghostPitAnswered, e) && !specPitIn(old(ghostPitAnswered), e) ==> specPitIn(ghostPitDueNow, e) })
-//@   loop 2 invariant [expiry-scheduled] forall(func(e table.PitEntry) bool { return specPitIn(ghostPitUnsched, e) ==> specPitIn(old(ghostPitUnsched), e) })
-//@   loop 3 invariant [satisfied-reaped-promptly] forall(func(e table.PitEntry) bool { return specPitIn(ghostPitAnswered, e) && !specPitIn(old(ghostPitAnswered), e) ==> specPitIn(ghostPitDueNow, e) })
-//@   loop 3 invariant [expiry-scheduled] forall(func(e table.PitEntry) bool { return specPitIn(ghostPitUnsched, e) ==> specPitIn(old(ghostPitUnsched), e) })
-//@   loop 4 invariant [satisfied-reaped-promptly] forall(func(e table.PitEntry) bool { return specPitIn(ghostPitAnswered, e) && !specPitIn(old(ghostPitAnswered), e) ==> specPitIn(ghostPitDueNow, e) })
-//@   loop 4 invariant [expiry-scheduled] forall(func(e table.PitEntry) bool { return specPitIn(ghostPitUnsched, e) ==> specPitIn(old(ghostPitUnsched), e) })
-//@   loop 5 invariant [satisfied-reaped-promptly] forall(func(e table.PitEntry) bool { return specPitIn(ghostPitAnswered, e) && !specPitIn(old(ghostPitAnswered), e) ==> specPitIn(ghostPitDueNow, e) })
-//@   loop 5 invariant [expiry-scheduled] forall(func(e table.PitEntry) bool { return specPitIn(ghostPitUnsched, e) ==> specPitIn(old(ghostPitUnsched), e) })
 
 // ---------------------------------------------------------------------------------------
 // C01 / C02: strategies (what is sent where), stated over the ghost send trace
@@ -263,6 +245,7 @@ func specPitIn(version int, e table.PitEntry) bool { panic("ghost") }
 //@ func (*StrategyBase).SendInterest
 //@   ensures [clock-kept] ghostFwClock == old(ghostFwClock)
 //@   requires s.thread != nil && packet != nil && packet.L3 != nil && packet.L3.Interest != nil && packet.L3.Data == nil && pitEntry != nil
+//@   requires [hop-limit-dec] specHopDecremented(packet)
 //@   modifies s.thread.NOutInterests, all(table.PitOutRecord), all(table.basePitEntry), verifSends, verifLastFace, verifLastToken, verifSentSet[*]
 //@   ensures result ==> verifSends == old(verifSends)+1 && verifLastFace == nexthop && !(nexthop == inFace && dispatch.GetFace(nexthop).LinkType() != defn.AdHoc)
 //@   ensures !result ==> verifSends == old(verifSends) && verifLastFace == old(verifLastFace)
@@ -322,6 +305,7 @@ func specPitIn(version int, e table.PitEntry) bool { panic("ghost") }
 //
 //@ func (*BestRoute).AfterReceiveInterest
 //@   requires s.thread != nil && packet != nil && packet.L3 != nil && packet.L3.Interest != nil && packet.L3.Data == nil && packet.L3.Interest.NonceV != nil
+//@   requires [hop-limit-dec] specHopDecremented(packet)
 //@   requires pitEntry != nil && typeIs(pitEntry, "*table.nameTreePitEntry")
 //@   requires forallIn(0, len(nexthops), func(i int) bool { return nexthops[i] != nil })
 //@   modifies nexthops[*], s.thread.NOutInterests, all(table.PitOutRecord), all(table.basePitEntry), verifSends, verifLastFace, verifLastToken, verifSentSet[*]
@@ -346,11 +330,13 @@ func specPitIn(version int, e table.PitEntry) bool { panic("ghost") }
 //@   opaque specIsLocalhost
 //@   option binder-typing
 //@   requires s.thread != nil && packet != nil && packet.L3 != nil && packet.L3.Interest != nil && packet.L3.Data == nil && packet.L3.Interest.NonceV != nil
+//@   requires [hop-limit-dec] specHopDecremented(packet)
 //@   requires pitEntry != nil && typeIs(pitEntry, "*table.nameTreePitEntry")
 //@   requires forallIn(0, len(nexthops), func(i int) bool { return nexthops[i] != nil })
 //@   modifies s.thread.NOutInterests, all(table.PitOutRecord), all(table.basePitEntry), verifSends, verifLastFace, verifLastToken, verifSentSet[*]
 //@   ensures [only-fib-faces] forall(func(k uint64) bool { return mapHas(verifSentSet, k) && !old(mapHas(verifSentSet, k)) ==> existsIn(0, len(nexthops), func(i int) bool { return nexthops[i].Nexthop == k && specUsable(packet, k, inFace) }) })
 //@   ensures [all-usable] old(forall(func(k uint64) bool { return !mapHas(pitEntry.(*table.nameTreePitEntry).outRecords, k) })) ==> forallIn(0, len(nexthops), func(i int) bool { return specUsable(packet, nexthops[i].Nexthop, inFace) ==> mapHas(verifSentSet, nexthops[i].Nexthop) })
+//@   ensures [nothing-without-nexthop] len(nexthops) == 0 ==> verifSends == old(verifSends) && verifLastFace == old(verifLastFace)
 //@   ensures [suppression] verifSends != old(verifSends) ==> forall(func(k uint64) bool { return old(mapHas(pitEntry.(*table.nameTreePitEntry).outRecords, k) && pitEntry.(*table.nameTreePitEntry).outRecords[k].LatestNonce != *packet.L3.Interest.NonceV) ==> existsIn(old(ghostFwClock), ghostFwClock, func(i int) bool { return !old(pitEntry.(*table.nameTreePitEntry).outRecords[k].LatestTimestamp).Add(MulticastSuppressionTime).After(specFwClockAt(i)) }) })
 //@   ensures [outside-interval-not-suppressed] forall(func(k uint64, i int) bool { return old(mapHas(pitEntry.(*table.nameTreePitEntry).outRecords, k) && pitEntry.(*table.nameTreePitEntry).outRecords[k].LatestNonce != *packet.L3.Interest.NonceV) && old(ghostFwClock) <= i && i < ghostFwClock ==> !old(pitEntry.(*table.nameTreePitEntry).outRecords[k].LatestTimestamp).Add(MulticastSuppressionTime).After(specFwClockAt(i)) }) ==> forallIn(0, len(nexthops), func(i int) bool { return specUsable(packet, nexthops[i].Nexthop, inFace) ==> mapHas(verifSentSet, nexthops[i].Nexthop) })
 //@   loop 1 invariant ghostFwClock >= old(ghostFwClock) && pitEntry.(*table.nameTreePitEntry).outRecords == old(pitEntry.(*table.nameTreePitEntry).outRecords)
@@ -361,3 +347,106 @@ func specPitIn(version int, e table.PitEntry) bool { panic("ghost") }
 //@   loop 2 invariant forall(func(k uint64) bool { return old(mapHas(pitEntry.(*table.nameTreePitEntry).outRecords, k) && pitEntry.(*table.nameTreePitEntry).outRecords[k].LatestNonce != *packet.L3.Interest.NonceV) ==> existsIn(old(ghostFwClock), ghostFwClock, func(i int) bool { return !old(pitEntry.(*table.nameTreePitEntry).outRecords[k].LatestTimestamp).Add(MulticastSuppressionTime).After(specFwClockAt(i)) }) })
 //@   loop 2 invariant forall(func(k uint64) bool { return mapHas(verifSentSet, k) && !old(mapHas(verifSentSet, k)) ==> existsIn(0, rangeindex+1, func(i int) bool { return nexthops[i].Nexthop == k && specUsable(packet, k, inFace) }) })
 //@   loop 2 invariant forallIn(0, rangeindex+1, func(i int) bool { return specUsable(packet, nexthops[i].Nexthop, inFace) ==> mapHas(verifSentSet, nexthops[i].Nexthop) })
+
+// ---------------------------------------------------------------------------------------
+// The Strategy interface as the incoming pipelines see it (C01/C02). The pipelines call the strategy chosen by the FIB
+// through this interface; both shipped strategies are CHECKED to refine these contracts (props: `mode: refine`), so the
+// pipelines no longer treat the strategy step as an effect-free external call.
+//   specStrategyReady(s): the strategy object has been instantiated for a thread (Strategy.Instantiate: A-ENV).
+// ---------------------------------------------------------------------------------------
+
+func specStrategyReady(s Strategy) bool {
+	if b, ok := s.(*BestRoute); ok {
+		return b != nil && b.thread != nil
+	}
+	if m, ok := s.(*Multicast); ok {
+		return m != nil && m.thread != nil
+	}
+	return true
+}
+
+// AfterReceiveInterest: whatever the strategy, an Interest goes only to faces that are among the next hops handed in and
+// usable (exists, not the point-to-point arrival face, scope, hop limit); the Interest is passed on as it is
+// (precondition [hop-limit-dec] of every SendPacket underneath).
+//
+//@ func (Strategy).AfterReceiveInterest
+//@   requires specStrategyReady(self)
+//@   requires packet != nil && packet.L3 != nil && packet.L3.Interest != nil && packet.L3.Data == nil && packet.L3.Interest.NonceV != nil
+//@   requires [hop-limit-dec] specHopDecremented(packet)
+//@   requires pitEntry != nil && typeIs(pitEntry, "*table.nameTreePitEntry")
+//@   requires forallIn(0, len(nexthops), func(i int) bool { return nexthops[i] != nil })
+//@   modifies nexthops[*], all(Thread.NOutInterests), all(table.PitOutRecord), all(table.basePitEntry), verifSends, verifLastFace, verifLastToken, verifSentSet[*]
+//@   ensures [only-nexthops] forall(func(k uint64) bool { return mapHas(verifSentSet, k) && !old(mapHas(verifSentSet, k)) ==> old(existsIn(0, len(nexthops), func(i int) bool { return nexthops[i].Nexthop == k })) && specUsable(packet, k, inFace) })
+//@   ensures [nothing-without-nexthop] old(len(nexthops)) == 0 ==> verifSends == old(verifSends)
+
+// AfterContentStoreHit (C01: "Data served from the cache in answer to an Interest goes to that Interest's face alone"):
+// whatever the strategy, at most one packet leaves, and it leaves on the face of the Interest.
+//
+//@ func (Strategy).AfterContentStoreHit
+//@   requires specStrategyReady(self)
+//@   requires packet != nil && packet.L3 != nil && packet.L3.Data != nil && packet.L3.Interest == nil
+//@   requires pitEntry != nil && typeIs(pitEntry, "*table.nameTreePitEntry") && pitEntry.(*table.nameTreePitEntry).inRecords != nil
+//@   requires forall(func(k uint64) bool { return mapHas(pitEntry.(*table.nameTreePitEntry).inRecords, k) ==> pitEntry.(*table.nameTreePitEntry).inRecords[k] != nil })
+//@   modifies pitEntry.(*table.nameTreePitEntry).inRecords[*], all(Thread.NOutData), all(Thread.NSatisfiedInterests), verifSends, verifLastFace, verifLastToken, verifSentSet[*]
+//@   ensures [interest-face-alone] (verifSends == old(verifSends) && verifLastFace == old(verifLastFace)) || (verifSends == old(verifSends)+1 && verifLastFace == inFace)
+
+// AfterReceiveData (C01): whatever the strategy, Data goes only to faces that held an in-record of the matched entry when
+// it arrived, and every in-record is consumed (a repeated copy finds none).
+//
+//@ func (Strategy).AfterReceiveData
+//@   requires specStrategyReady(self)
+//@   requires packet != nil && packet.L3 != nil && packet.L3.Data != nil && packet.L3.Interest == nil
+//@   requires pitEntry != nil && typeIs(pitEntry, "*table.nameTreePitEntry") && pitEntry.(*table.nameTreePitEntry).inRecords != nil
+//@   requires forall(func(k uint64) bool { return mapHas(pitEntry.(*table.nameTreePitEntry).inRecords, k) ==> pitEntry.(*table.nameTreePitEntry).inRecords[k] != nil })
+//@   modifies pitEntry.(*table.nameTreePitEntry).inRecords[*], all(Thread.NOutData), all(Thread.NSatisfiedInterests), verifSends, verifLastFace, verifLastToken, verifSentSet[*]
+//@   ensures [all-consumed] forall(func(k uint64) bool { return !mapHas(pitEntry.(*table.nameTreePitEntry).inRecords, k) })
+//@   ensures [only-pending-faces] verifLastFace == old(verifLastFace) || forall(func(k uint64) bool { return k == verifLastFace ==> old(mapHas(pitEntry.(*table.nameTreePitEntry).inRecords, k)) })
+
+// BeforeSatisfyInterest: a notification; no strategy transmits or touches a table in it.
+//
+//@ func (Strategy).BeforeSatisfyInterest
+//@   requires specStrategyReady(self)
+
+// (no modifies clause = modifies nothing, checked against the bodies: both are empty today)
+//
+//@ func (*BestRoute).BeforeSatisfyInterest
+//@   ensures verifSends == old(verifSends)
+
+//@ func (*Multicast).BeforeSatisfyInterest
+//@   ensures verifSends == old(verifSends)
+
+// ---------------------------------------------------------------------------------------
+// C02: which name the FIB is asked about. "... a next hop of the longest-prefix FIB entry for its name (or for its
+// forwarding hint outside the producer region ...)": an Interest without forwarding hint, or with ANY delegation inside
+// the producer region, has reached the region and is looked up by its own name; otherwise by its first delegation.
+// ---------------------------------------------------------------------------------------
+
+func existsIn(lo, hi int, f func(int) bool) bool {
+	for i := lo; i < hi; i++ {
+		if f(i) {
+			return true
+		}
+	}
+	return false
+}
+
+// specReachedRegion: no forwarding hint, or some delegation of the hint lies in the producer region.
+func specReachedRegion(interest *spec.Interest) bool {
+	return interest.ForwardingHintV == nil || len(interest.ForwardingHintV.Names) == 0 ||
+		existsIn(0, len(interest.ForwardingHintV.Names), func(j int) bool { return table.SpecInProducerRegion(interest.ForwardingHintV.Names[j]) })
+}
+
+// Ghost handle on the FIB lookup made by the pipeline: how many lookups, the name asked about, the list returned.
+var verifFibLookups int
+var verifFibName enc.Name
+var verifFibResult []*table.FibNextHopEntry
+
+// fw/fw's view of the FIB lookup: the interface contract of fw/table (non-nil records; both FIB implementations are
+// checked to refine it) plus the ghost handle (an event record defined by this contract: no code writes it).
+//
+//@ func (github.com/named-data/ndnd/fw/table.FibStrategy).FindNextHopsEnc
+//@   requires table.specFibWf(self)
+//@   modifies verifFibLookups, verifFibName, verifFibResult
+//@   ensures [wf-kept] table.specFibWf(self)
+//@   ensures forallIn(0, len(result), func(i int) bool { return result[i] != nil })
+//@   ensures [consulted] verifFibLookups == old(verifFibLookups)+1 && sameSlice(verifFibName, name) && sameSlice(verifFibResult, result)
